@@ -9,6 +9,7 @@ EXPLANATION = ('The convergence statement of C06 is statistical and is NOT decid
                'paths (MH acceptance, isotropic proposal noise, HMC momenta and uniforms, NUTS momentum / Exp(1) slice / direction / accept / merge uniforms, categorical '
                'variate, initial positions): each site draws the required distribution (type-resolved rand API + distribution value) from the sampler-owned generator, and the '
                'drawn value reaches exactly one role sink (no value drawn once is used for two decisions).')
+FLOORS = {'obligations': 26}   # counted on the reference tree; fewer instantiated obligations is reported, never passed silently
 TECHNIQUE = 'draw-site table: distribution kind from resolved callees/values, single-use (one role sink) by value-flow containment'
 LEVEL_NOTE = ('Decides only the draw-kind / single-use clause. Convergence of long-run averages, calibration of Monte-Carlo error and correctness of the transition kernels (C01-C05) are outside '
               'this check; trusted: rand/rand_distr contracts (StandardUniform on [0,1), StandardNormal, Exp1), semantic table.')
